@@ -16,11 +16,17 @@ Definition map_ok (n : Z) (m : amap) : Prop :=
 Definition orphan_ok (p : kind * Z * obj) : Prop :=
   o_closed (snd p) = true /\ (fst (fst p) = KSub -> o_images (snd p) = []).
 
+(* a handle the conductor has closed and forgotten while the user still holds it: its registration is gone for good (the id is
+   never handed out again); while the client is open these are the subscriptions / publications hit by a channel endpoint error *)
+Definition orphan_free (s : st) (p : kind * Z * obj) : Prop :=
+  lookup (snd (fst p)) (getm (fst (fst p)) s) = None /\ snd (fst p) < next_corr s /\
+  (closed s = false -> fst (fst p) <> KCtr /\ fst (fst p) <> KDest).
+
 Definition inv (s : st) : Prop :=
   (forall k, map_ok (next_corr s) (getm k s)) /\
   client_id s < next_corr s /\
   (closed s = true -> forall k, k <> KDest -> getm k s = []) /\
-  (closed s = false -> orphans s = []) /\
+  Forall (orphan_free s) (orphans s) /\
   Forall orphan_ok (orphans s).
 
 Lemma map_ok_nil n : map_ok n [].
@@ -82,7 +88,8 @@ Lemma inv_same_core s s' : same_core s s' -> inv s -> inv s'.
 Proof. intros (A & B & C & D & E) (I1 & I2 & I3 & I4 & I5). unfold inv. rewrite B, C, D, E.
   split; [|split; [|split; [|split]]]; auto.
   - intros k. rewrite A. apply I1.
-  - intros Hc k Hk. rewrite A. apply I3; auto. Qed.
+  - intros Hc k Hk. rewrite A. apply I3; auto.
+  - eapply Forall_impl; [|exact I4]. intros p (P1 & P2 & P3). unfold orphan_free. rewrite A, B, D. auto. Qed.
 
 Ltac core := unfold same_core; repeat split; try (let k := fresh "k" in intros k; destruct k; reflexivity).
 
@@ -97,23 +104,36 @@ Lemma core_set_hb_bound v s : same_core s (set_hb_bound v s). Proof. core. Qed.
 Lemma core_set_driver_active v s : same_core s (set_driver_active v s). Proof. core. Qed.
 Lemma core_set_close_sent v s : same_core s (set_close_sent v s). Proof. core. Qed.
 Lemma core_set_ring_full v s : same_core s (set_ring_full v s). Proof. core. Qed.
+Lemma core_set_uclosed v s : same_core s (set_uclosed v s). Proof. core. Qed.
 
 Ltac inv_split := unfold inv; split; [|split; [|split; [|split]]].
 
 Lemma inv_set_next_corr n s : next_corr s <= n -> inv s -> inv (set_next_corr n s).
 Proof. intros H (I1 & I2 & I3 & I4 & I5). inv_split; auto.
   - intros k. rewrite getm_set_next_corr. cbn. eapply map_ok_mono; [|apply I1]. exact H.
-  - cbn. lia. Qed.
+  - cbn. lia.
+  - cbn [orphans set_next_corr]. eapply Forall_impl; [|exact I4]. intros p (P1 & P2 & P3). unfold orphan_free.
+    rewrite getm_set_next_corr. cbn [next_corr closed set_next_corr]. split; [exact P1|]. split; [lia|exact P3]. Qed.
+
+(* the new map of kind k must not bring back a registration whose handle is an orphan *)
+Definition no_orphan_key (k : kind) (m : amap) (s : st) : Prop :=
+  forall r o, In (k, r, o) (orphans s) -> lookup r m = None.
 
 Lemma inv_setm k m s :
-  map_ok (next_corr s) m -> (closed s = true -> k <> KDest -> m = []) -> inv s -> inv (setm k m s).
-Proof. intros Hm Hc (I1 & I2 & I3 & I4 & I5). unfold inv.
+  map_ok (next_corr s) m -> (closed s = true -> k <> KDest -> m = []) -> no_orphan_key k m s -> inv s -> inv (setm k m s).
+Proof. intros Hm Hc Hno (I1 & I2 & I3 & I4 & I5). unfold inv.
   rewrite setm_next_corr, setm_client_id, setm_closed, setm_orphans. inv_split; auto.
   - intros k'. rewrite getm_setm. destruct (kind_eqb k' k); auto.
   - intros Hcl k' Hk'. rewrite getm_setm. destruct (kind_eqb k' k) eqn:E; auto.
-    apply kind_eqb_eq in E. subst. auto. Qed.
+    apply kind_eqb_eq in E. subst. auto.
+  - apply Forall_forall. intros [[k' r'] o'] Hp. rewrite Forall_forall in I4. destruct (I4 _ Hp) as (P1 & P2 & P3).
+    unfold orphan_free. cbn [fst snd] in *. rewrite getm_setm, setm_next_corr, setm_closed. split; [|split; [exact P2|exact P3]].
+    destruct (kind_eqb k' k) eqn:E; auto. apply kind_eqb_eq in E. subst. eapply Hno; eauto. Qed.
 
-Lemma inv_set_orphans l s : (closed s = false -> l = []) -> Forall orphan_ok l -> inv s -> inv (set_orphans l s).
+Lemma inv_orphan s k r o : inv s -> In (k, r, o) (orphans s) -> lookup r (getm k s) = None /\ r < next_corr s.
+Proof. intros (_ & _ & _ & I4 & _) H. rewrite Forall_forall in I4. destruct (I4 _ H) as (P1 & P2 & _). auto. Qed.
+
+Lemma inv_set_orphans l s : Forall (orphan_free s) l -> Forall orphan_ok l -> inv s -> inv (set_orphans l s).
 Proof. intros H1 H2 (I1 & I2 & I3 & I4 & I5). inv_split; auto. Qed.
 
 Lemma inv_lookup s k r e : inv s -> lookup r (getm k s) = Some e -> r < next_corr s /\ entry_ok e.
@@ -161,18 +181,24 @@ Proof. intros I. unfold do_add. destruct (negb (driver_active s)); [exact I|].
   - rewrite getm_set_next_corr. cbn [next_corr set_next_corr].
     apply map_ok_ins; [lia|apply entry_ok_new|]. eapply map_ok_mono; [|apply inv_map_ok; exact I]. lia.
   - cbn. congruence.
+  - intros r o Ho. cbn [orphans set_next_corr] in Ho. destruct (inv_orphan s k r o I Ho) as [P1 P2].
+    rewrite getm_set_next_corr, lookup_ins_other by lia. exact P1.
   - apply inv_set_next_corr; [lia|exact I]. Qed.
 
 Lemma inv_upd_entry s k r e f :
   inv s -> lookup r (getm k s) = Some e -> (entry_ok e -> entry_ok (f e)) -> inv (setm k (upd r f (getm k s)) s).
 Proof. intros I Hl Hf. apply inv_setm; auto.
   - eapply map_ok_upd_at; eauto. apply inv_map_ok; auto.
-  - intros Hc Hk. destruct I as (_ & _ & I3 & _). rewrite (I3 Hc k Hk). reflexivity. Qed.
+  - intros Hc Hk. destruct I as (_ & _ & I3 & _). rewrite (I3 Hc k Hk). reflexivity.
+  - intros r' o Ho. destruct (inv_orphan s k r' o I Ho) as [P1 _].
+    destruct (Z.eq_dec r' r) as [->|Hne]; [rewrite lookup_upd_same, P1; reflexivity|rewrite lookup_upd_other by auto; exact P1]. Qed.
 
 Lemma inv_remove_entry s k r : inv s -> inv (setm k (remove r (getm k s)) s).
 Proof. intros I. apply inv_setm; auto.
   - apply map_ok_remove. apply inv_map_ok; auto.
-  - intros Hc Hk. destruct I as (_ & _ & I3 & _). rewrite (I3 Hc k Hk). reflexivity. Qed.
+  - intros Hc Hk. destruct I as (_ & _ & I3 & _). rewrite (I3 Hc k Hk). reflexivity.
+  - intros r' o Ho. destruct (inv_orphan s k r' o I Ho) as [P1 _].
+    destruct (Z.eq_dec r' r) as [->|Hne]; [apply lookup_remove_same|rewrite lookup_remove_other by auto; exact P1]. Qed.
 
 Lemma do_find_inv c k r s : inv s -> inv (fst (do_find c k r s)).
 Proof. intros I. unfold do_find. destruct (closed s); [exact I|].
@@ -227,6 +253,8 @@ Proof. intros I. unfold do_release. destruct (lookup r (getm k s)) as [e0|] eqn:
     - rewrite getm_set_next_corr. cbn [next_corr set_next_corr]. apply map_ok_remove.
       eapply map_ok_mono; [|apply inv_map_ok; exact I]. lia.
     - intros Hc Hk. cbn in Hc. rewrite getm_set_next_corr. destruct I as (_ & _ & I3 & _). rewrite (I3 Hc k Hk). reflexivity.
+    - intros r' o Ho. cbn [orphans set_next_corr] in Ho. destruct (inv_orphan s k r' o I Ho) as [P1 _]. rewrite getm_set_next_corr.
+      destruct (Z.eq_dec r' r) as [->|Hne]; [apply lookup_remove_same|rewrite lookup_remove_other by auto; exact P1].
     - apply inv_set_next_corr; [lia|exact I]. }
   assert (Hdead : inv (setm k (upd r (fun e => set_obj None (set_status Dropped e)) (getm k (set_next_corr (next_corr s + 1) s))) (set_next_corr (next_corr s + 1) s))).
   { apply (inv_upd_entry (set_next_corr (next_corr s + 1) s) k r e0); [apply inv_set_next_corr; [lia|exact I]|rewrite getm_set_next_corr; exact El0|].
@@ -250,21 +278,20 @@ Lemma remove_orphan_ok k r l : Forall orphan_ok l -> Forall orphan_ok (remove_or
 Proof. unfold remove_orphan. intros H. apply Forall_forall. intros p Hp. apply filter_In in Hp.
   rewrite Forall_forall in H. apply H. tauto. Qed.
 
+Lemma remove_orphan_incl k r l p : In p (remove_orphan k r l) -> In p l.
+Proof. unfold remove_orphan. intros H. apply filter_In in H. tauto. Qed.
+
 Lemma do_drop_inv k r s : inv s -> inv (fst (do_drop k r s)).
 Proof. intros I. unfold do_drop. destruct k; try exact I;
   (destruct (user_obj _ r s) as [o|]; [|exact I]);
   match goal with |- context [dtor_user ?k r o s] =>
-    pose proof (dtor_user_inv k r o s I) as I'; pose proof (dtor_user_closed k r o s) as Hc;
-    pose proof (dtor_user_orphans k r o s) as Ho; destruct (dtor_user k r o s) as [s1 [cbs cmds]] end;
+    pose proof (dtor_user_inv k r o s I) as I'; destruct (dtor_user k r o s) as [s1 [cbs cmds]] end;
   cbn [fst] in *; (apply inv_set_orphans; [| |exact I']);
-  [ intros Hcl; rewrite Ho; destruct I as (_ & _ & _ & I4 & _); rewrite I4 by congruence; reflexivity
-  | apply remove_orphan_ok; destruct I' as (_ & _ & _ & _ & I5); exact I5
-  | intros Hcl; rewrite Ho; destruct I as (_ & _ & _ & I4 & _); rewrite I4 by congruence; reflexivity
-  | apply remove_orphan_ok; destruct I' as (_ & _ & _ & _ & I5); exact I5
-  | intros Hcl; rewrite Ho; destruct I as (_ & _ & _ & I4 & _); rewrite I4 by congruence; reflexivity
-  | apply remove_orphan_ok; destruct I' as (_ & _ & _ & _ & I5); exact I5
-  | intros Hcl; rewrite Ho; destruct I as (_ & _ & _ & I4 & _); rewrite I4 by congruence; reflexivity
-  | apply remove_orphan_ok; destruct I' as (_ & _ & _ & _ & I5); exact I5 ]. Qed.
+  [ destruct I' as (_ & _ & _ & I4 & _) | destruct I' as (_ & _ & _ & _ & I4)
+  | destruct I' as (_ & _ & _ & I4 & _) | destruct I' as (_ & _ & _ & _ & I4)
+  | destruct I' as (_ & _ & _ & I4 & _) | destruct I' as (_ & _ & _ & _ & I4)
+  | destruct I' as (_ & _ & _ & I4 & _) | destruct I' as (_ & _ & _ & _ & I4) ];
+  apply Forall_forall; intros p Hp; apply remove_orphan_incl in Hp; rewrite Forall_forall in I4; apply I4; exact Hp. Qed.
 
 Lemma do_peek_state k r s : fst (do_peek k r s) = s.
 Proof. unfold do_peek. destruct (user_obj k r s); reflexivity. Qed.
@@ -278,15 +305,37 @@ Lemma map_ok_obj_open n m r o : map_ok n m -> In (r, o) (objs_of m) -> o_closed 
 Proof. intros [_ F] H. apply objs_of_in in H. destruct H as (e & Hin & Ho). rewrite Forall_forall in F.
   destruct (F _ Hin) as [_ [_ B]]. cbn in B. auto. Qed.
 
+Lemma objs_of_bound n m r o : map_ok n m -> In (r, o) (objs_of m) -> r < n.
+Proof. intros [_ F] H. apply objs_of_in in H. destruct H as (e & Hin & _). rewrite Forall_forall in F. destruct (F _ Hin) as [B _]. exact B. Qed.
+
 Lemma close_all_inv s : inv s -> inv (fst (fst (close_all s))).
 Proof. intros I. unfold close_all. destruct (closed s) eqn:Ec; [exact I|].
   destruct (close_subs (subs s)) as [sl scbs] eqn:Es. destruct (close_ctrs (ctrs s)) as [cl ccbs] eqn:Ect.
-  cbn [fst]. destruct I as (I1 & I2 & I3 & I4 & I5). inv_split.
+  cbn [fst]. destruct I as (I1 & I2 & I3 & I4 & I5).
+  assert (Hsl : forall r o, In (r, o) sl -> r < next_corr s).
+  { intros r o Hin. unfold close_subs in Es. inversion Es; subst. rewrite map_map in Hin. cbn in Hin.
+    apply in_map_iff in Hin. destruct Hin as ([r' o'] & Heq & Hin). cbn in Heq. inversion Heq; subst.
+    eapply objs_of_bound; [apply (I1 KSub)|exact Hin]. }
+  assert (Hcl : forall r o, In (r, o) cl -> r < next_corr s).
+  { intros r o Hin. unfold close_ctrs in Ect. inversion Ect; subst.
+    apply in_map_iff in Hin. destruct Hin as ([r' o'] & Heq & Hin). cbn in Heq. inversion Heq; subst.
+    eapply objs_of_bound; [apply (I1 KCtr)|exact Hin]. }
+  inv_split.
   - intros k. destruct k; cbn; try apply map_ok_nil. apply (I1 KDest).
   - exact I2.
   - intros _ k Hk. destruct k; cbn; auto. congruence.
-  - cbn. congruence.
-  - cbn [orphans]. rewrite (I4 Ec). cbn [app]. repeat (apply Forall_app; split).
+  - cbn [orphans]. repeat (apply Forall_app; split).
+    + eapply Forall_impl; [|exact I4]. intros [[k r] o] (P1 & P2 & P3). unfold orphan_free. cbn [fst snd] in *.
+      split; [destruct k; cbn; auto|]. split; [exact P2|]. cbn. discriminate.
+    + unfold close_pubs. apply Forall_forall. intros p Hp. apply in_map_iff in Hp. destruct Hp as ([r o] & <- & Hin).
+      unfold orphan_free. cbn. split; [reflexivity|]. split; [|discriminate]. eapply objs_of_bound; [apply (I1 KPub)|exact Hin].
+    + unfold close_pubs. apply Forall_forall. intros p Hp. apply in_map_iff in Hp. destruct Hp as ([r o] & <- & Hin).
+      unfold orphan_free. cbn. split; [reflexivity|]. split; [|discriminate]. eapply objs_of_bound; [apply (I1 KXPub)|exact Hin].
+    + unfold kept. apply Forall_forall. intros p Hp. apply in_map_iff in Hp. destruct Hp as ([r o] & <- & Hf).
+      apply filter_In in Hf. destruct Hf as [Hf _]. unfold orphan_free. cbn. split; [reflexivity|]. split; [|discriminate]. eapply Hsl; eauto.
+    + unfold kept. apply Forall_forall. intros p Hp. apply in_map_iff in Hp. destruct Hp as ([r o] & <- & Hf).
+      apply filter_In in Hf. destruct Hf as [Hf _]. unfold orphan_free. cbn. split; [reflexivity|]. split; [|discriminate]. eapply Hcl; eauto.
+  - cbn [orphans]. repeat (apply Forall_app; split); [exact I5| | | |].
     + unfold close_pubs. apply Forall_forall. intros p Hp. apply in_map_iff in Hp. destruct Hp as ([r o] & <- & _).
       split; cbn; [reflexivity|congruence].
     + unfold close_pubs. apply Forall_forall. intros p Hp. apply in_map_iff in Hp. destruct Hp as ([r o] & <- & _).
@@ -317,6 +366,104 @@ Proof. intros I. unfold on_error.
   destruct (lookup corr (dests s)) eqn:E5. { apply (inv_upd_entry s KDest corr e); auto. apply entry_ok_set_error. }
   exact I. Qed.
 
+(* ---- on_channel_endpoint_error_response ---- *)
+Lemma chan_hit_some k x e o : chan_hit k x e = Some o -> e_obj e = Some o /\ chan_id k o = wrap32 x.
+Proof. unfold chan_hit. destruct (e_obj e) as [o'|]; [|discriminate]. destruct (chan_id k o' =? wrap32 x) eqn:E; [|discriminate].
+  intros H. inversion H; subst. split; [reflexivity|lia]. Qed.
+
+Lemma map_ok_chan_keep n k x m : map_ok n m -> map_ok n (chan_keep k x m).
+Proof. intros [A B]. unfold chan_keep. split.
+  - unfold keys. clear B. induction m as [|[r e] m IH]; cbn; [constructor|]. inversion A; subst.
+    destruct (negb (chan_removed k x (r, e))); cbn; auto. constructor; auto.
+    intros Hin. apply H1. apply in_map_iff in Hin. destruct Hin as (p & <- & Hp). apply filter_In in Hp. apply in_map. tauto.
+  - apply Forall_forall. intros p Hp. apply filter_In in Hp. rewrite Forall_forall in B. apply B. tauto. Qed.
+
+Lemma chan_closed_obj_closed k r o : o_closed (chan_closed_obj k r o) = true.
+Proof. unfold chan_closed_obj. destruct k; try reflexivity. apply close_sub_obj_closed. Qed.
+
+Lemma chan_orphans_in k x m p : In p (chan_orphans k x m) ->
+  exists r e o, In (r, e) m /\ chan_hit k x e = Some o /\ p = (k, r, chan_closed_obj k r o).
+Proof. unfold chan_orphans. intros Hp. apply in_flat_map in Hp. destruct Hp as ([r e] & Hin & Hx). cbn [fst snd] in Hx.
+  destruct (chan_hit k x e) as [o|] eqn:Eh; [|destruct Hx].
+  destruct (chan_removed k x (r, e) && (o_user o || negb (kind_eqb k KSub))); [|destruct Hx].
+  destruct Hx as [<-|[]]. exists r, e, o. auto. Qed.
+
+Lemma chan_orphans_ok k x m : (k = KSub -> forall r e o, In (r, e) m -> e_obj e = Some o -> o_closed o = false) ->
+  Forall orphan_ok (chan_orphans k x m).
+Proof. intros Hop. apply Forall_forall; intros p Hp; apply chan_orphans_in in Hp;
+  destruct Hp as (r & e & o & Hin & Eh & ->).
+  split; cbn [fst snd]; [apply chan_closed_obj_closed|]. intros ->. unfold chan_closed_obj, close_sub_obj.
+  apply chan_hit_some in Eh. destruct Eh as [Eo _]. rewrite (Hop eq_refl r e o Hin Eo). reflexivity. Qed.
+
+Lemma in_map_entry (m : amap) r e : In (r, e) m -> NoDup (keys m) -> lookup r m = Some e.
+Proof. induction m as [|[k2 e2] m IH]; cbn; [tauto|]. intros [H|H] N; inversion N; subst.
+  - inversion H; subst. rewrite Z.eqb_refl. reflexivity.
+  - destruct (k2 =? r) eqn:E; [|auto]. exfalso. apply H2. assert (k2 = r) by lia. subst. apply in_map_iff. exists (r, e). auto. Qed.
+
+(* lookup in a filtered map without duplicate keys *)
+Lemma lookup_filter (f : Z * entry -> bool) (m : amap) r : NoDup (keys m) ->
+  lookup r (filter f m) = match lookup r m with Some e => if f (r, e) then Some e else None | None => None end.
+Proof. induction m as [|[k e] m IH]; cbn; auto. intros N. inversion N; subst.
+  destruct (k =? r) eqn:E.
+  - assert (k = r) by lia. subst k. destruct (f (r, e)) eqn:Ef; cbn; [rewrite Z.eqb_refl; reflexivity|].
+    rewrite IH by auto. assert (Hl : lookup r m = None) by (apply lookup_none_keys; exact H1). rewrite Hl. reflexivity.
+  - destruct (f (k, e)); cbn; [rewrite E|]; apply IH; auto. Qed.
+
+Lemma lookup_chan_keep k x m r : NoDup (keys m) ->
+  lookup r (chan_keep k x m) = match lookup r m with Some e => if chan_removed k x (r, e) then None else Some e | None => None end.
+Proof. intros N. unfold chan_keep. rewrite lookup_filter by auto. destruct (lookup r m) as [e|]; auto. destruct (chan_removed k x (r, e)); reflexivity. Qed.
+
+Lemma chan_orphans_removed k x m p : In p (chan_orphans k x m) ->
+  exists r e o, In (r, e) m /\ chan_removed k x (r, e) = true /\ p = (k, r, chan_closed_obj k r o).
+Proof. unfold chan_orphans. intros Hp. apply in_flat_map in Hp. destruct Hp as ([r e] & Hin & Hx). cbn [fst snd] in Hx.
+  destruct (chan_hit k x e) as [o|] eqn:Eh; [|destruct Hx].
+  destruct (chan_removed k x (r, e)) eqn:Er; cbn [andb] in Hx; [|destruct Hx].
+  destruct (o_user o || negb (kind_eqb k KSub)); [|destruct Hx]. destruct Hx as [<-|[]]. exists r, e, o. auto. Qed.
+
+(* the three maps after a channel endpoint error, orphans not yet added *)
+Definition chan_maps (x : Z) (s : st) : st :=
+  setm KXPub (chan_keep KXPub x (xpubs s)) (setm KPub (chan_keep KPub x (pubs s)) (setm KSub (chan_keep KSub x (subs s)) s)).
+
+Lemma getm_chan_maps k x s : getm k (chan_maps x s) = match k with KSub | KPub | KXPub => chan_keep k x (getm k s) | _ => getm k s end.
+Proof. destruct k; reflexivity. Qed.
+
+Lemma chan_maps_inv x s : inv s -> inv (chan_maps x s).
+Proof. intros I. unfold chan_maps.
+  assert (Hm : forall k s0, inv s0 -> inv (setm k (chan_keep k x (getm k s0)) s0)).
+  { intros k s0 I0. apply inv_setm; auto.
+    - apply map_ok_chan_keep. apply inv_map_ok; auto.
+    - intros Hc Hk. destruct I0 as (_ & _ & J3 & _). rewrite (J3 Hc k Hk). reflexivity.
+    - intros r o Ho. destruct (inv_orphan s0 k r o I0 Ho) as [P1 _].
+      rewrite lookup_chan_keep by (apply inv_map_ok; auto). rewrite P1. reflexivity. }
+  pose proof (Hm KSub s I) as J1. pose proof (Hm KPub _ J1) as J2. pose proof (Hm KXPub _ J2) as J3. exact J3. Qed.
+
+Lemma on_chan_error_state x s :
+  fst (fst (on_chan_error x s)) =
+  set_orphans (orphans s ++ chan_orphans KSub x (subs s) ++ chan_orphans KPub x (pubs s) ++ chan_orphans KXPub x (xpubs s)) (chan_maps x s).
+Proof. reflexivity. Qed.
+
+Lemma on_chan_error_inv x s : inv s -> inv (fst (fst (on_chan_error x s))).
+Proof. intros I. rewrite on_chan_error_state.
+  assert (Hopen : forall r e o, In (r, e) (subs s) -> e_obj e = Some o -> o_closed o = false).
+  { intros r e o Hin Ho. destruct I as (I1 & _). destruct (I1 KSub) as [N F]. rewrite Forall_forall in F.
+    destruct (F _ Hin) as [_ [_ B]]. cbn in B. auto. }
+  pose proof (chan_maps_inv x s I) as I'. pose proof I as (I1 & I2 & I3 & I4 & I5).
+  assert (Hnew : forall k, k = KSub \/ k = KPub \/ k = KXPub -> Forall (orphan_free (chan_maps x s)) (chan_orphans k x (getm k s))).
+  { intros k Hk. apply Forall_forall. intros p Hp. apply chan_orphans_removed in Hp. destruct Hp as (r & e & o & Hin & Hrm & ->).
+    destruct (I1 k) as [N F]. pose proof (in_map_entry _ _ _ Hin N) as Hl.
+    rewrite Forall_forall in F. destruct (F _ Hin) as [Hb _]. cbn [fst] in Hb.
+    unfold orphan_free. cbn [fst snd]. rewrite getm_chan_maps. split; [|split].
+    - destruct Hk as [ -> | [ -> | -> ] ]; cbn [getm] in *; rewrite lookup_chan_keep by exact N; rewrite Hl, Hrm; reflexivity.
+    - exact Hb.
+    - intros _. destruct Hk as [ -> | [ -> | -> ] ]; split; congruence. }
+  apply inv_set_orphans; [| |exact I'].
+  - repeat (apply Forall_app; split).
+    + destruct I' as (_ & _ & _ & J4 & _). exact J4.
+    + apply (Hnew KSub). auto.
+    + apply (Hnew KPub). auto.
+    + apply (Hnew KXPub). auto.
+  - repeat (apply Forall_app; split); [exact I5| | |]; apply chan_orphans_ok; try congruence; auto. Qed.
+
 Lemma is_awaiting_obj e : entry_ok e -> is_awaiting e = true -> e_obj e = None.
 Proof. intros [A _] H. apply A. unfold is_awaiting in H. destruct (e_status e); congruence. Qed.
 
@@ -340,7 +487,8 @@ Proof. intros I. destruct ev; cbn [on_event].
     apply (inv_upd_entry s KCtr corr e); auto. intros He. apply entry_ok_set_ready. intros o' Ho. inversion Ho; subst. reflexivity.
   - exact I.
   - destruct ((cid =? client_id s) && negb (closed s)); [|exact I].
-    pose proof (close_all_inv s I) as I'. destruct (close_all s) as [[s1 cbs] hang]. exact I'. Qed.
+    pose proof (close_all_inv s I) as I'. destruct (close_all s) as [[s1 cbs] hang]. exact I'.
+  - apply on_chan_error_inv; auto. Qed.
 
 Lemma close_all_inv' s : inv s -> forall s1 cbs hang, close_all s = (s1, cbs, hang) -> inv s1.
 Proof. intros I s1 cbs hang H. pose proof (close_all_inv s I) as I'. rewrite H in I'. exact I'. Qed.
@@ -388,14 +536,16 @@ Proof. intros I. destruct o; cbn [step].
   - cbn [fst]. eapply inv_same_core; [apply core_set_driver_hb|exact I].
   - cbn [fst]. eapply inv_same_core; [apply core_set_hb_env|exact I].
   - cbn [fst]. eapply inv_same_core; [apply core_set_ring_full|exact I].
-  - apply do_work_inv; auto. Qed.
+  - apply do_work_inv; auto.
+  - unfold do_close_handle. destruct k; try exact I; destruct (user_obj _ r s); try exact I; cbn [fst];
+      (eapply inv_same_core; [apply core_set_uclosed|exact I]). Qed.
 
 Lemma init_inv c0 now0 : inv (init c0 now0).
 Proof. inv_split.
   - intros k. destruct k; apply map_ok_nil.
   - cbn. lia.
   - cbn. discriminate.
-  - reflexivity.
+  - constructor.
   - constructor. Qed.
 
 Lemma run_inv c ops : forall s, inv s -> inv (fst (run c s ops)).
